@@ -3,7 +3,7 @@ calls, fresh instances, fresh processes under different PYTHONHASHSEED values)."
 import os, sys, json, subprocess
 from ..core import STEPS, digest, canon_tree
 from ..common import build, call, basic_tokens, named_types
-from ..gram import RefGrammar, print_grammar, duplicate_empty_alternatives
+from ..gram import RefGrammar, print_grammar, duplicate_empty_alternatives, colliding_optionals
 from .. import ref as R, gen
 from .c01 import model as c01_model
 
@@ -60,6 +60,12 @@ def run_grammar(ctx, G, family, lexers, inputs, modes=('normal', 'invert', None)
     text = print_grammar(G)
     if duplicate_empty_alternatives(G):
         ctx.count('skipped-duplicate-empty-alternatives')
+        return
+    if colliding_optionals(G):
+        # two alternatives of one rule spell the same symbol sequence (a literal counts as the named terminal it coincides
+        # with): lark raises the documented "Rules defined twice" or silently keeps one of them - either way the set of
+        # derivations is not what the AST says, so tree-level oracles do not judge such grammars
+        ctx.count('skipped-colliding-alternatives')
         return
     rg = RefGrammar(G)
     cyclic = rg.is_cyclic()
